@@ -32,7 +32,7 @@ def run(res, ctx):
     rng = random.Random(seed * 160481183 + 15)
     st = collections.Counter()
     seen, samples, corr = set(), [], []
-    n = 900 if tier == "quick" else 4000
+    n = 900 if tier == "quick" else 20000
     orig, split, meta = [], [], []
     tries = 0
     while len(orig) < n and tries < n * 5:
